@@ -8,7 +8,9 @@
 (* brackets, literals of every kind and white space, so that the texts     *)
 (* exercise glued keywords, missing and superfluous white space, operator  *)
 (* prefixes of one another (< <=, & &&, ! !=) and the three-character      *)
-(* classification of call arguments.  Each text is emitted with the        *)
+(* classification of call arguments; set "intitems" wraps the atoms (single  *)
+(* characters) into  i in {...}  so that item lexing, ranges and the item    *)
+(* separation rules are enumerated.  Each text is emitted with the        *)
 (* verdict of ParseText, the AST JSON and the results on three contexts;   *)
 (* the engine must agree (texts with verdict "unspec" are not emitted).    *)
 (***************************************************************************)
@@ -38,12 +40,17 @@ SP == <<32>>   LF == <<10>>   LPa == <<40>>   RPa == <<41>>
 Logic == <<<<98, 49>>, <<101>>, <<110, 111, 116, 101>>, <<121>>, SP, LF, LPa, RPa, <<110, 111, 116>>, <<33>>, <<97, 110, 100>>, <<38, 38>>,
            <<111, 114>>, <<124, 124>>, <<120, 111, 114>>, <<94, 94>>>>
 Cmp == <<<<105>>, <<115>>, <<97, 46, 98>>, SP, <<61, 61>>, <<33, 61>>, <<60>>, <<60, 61>>, <<101, 113>>, <<105, 110>>, <<123>>, <<125>>, <<49>>, <<45, 49>>,
-         <<48, 120, 49>>, <<46, 46>>, <<34, 97, 34>>, <<54, 49, 58, 54, 50>>, <<38>>, <<126>>, <<99, 111, 110, 116, 97, 105, 110, 115>>, <<36, 108>>>>
+         <<48, 120, 49>>, <<46, 46>>, <<34, 97, 34>>, <<54, 49, 58, 54, 50>>, <<38>>, <<126>>, <<99, 111, 110, 116, 97, 105, 110, 115>>, <<36, 108>>,
+         <<119, 105, 108, 100, 99, 97, 114, 100>>, <<115, 116, 114, 105, 99, 116>>>>     \* ... wildcard strict
 Idx == <<<<118, 98>>, <<97, 105>>, <<91>>, <<93>>, <<42>>, <<48>>, <<97, 110, 121>>, <<97, 108, 108>>, LPa, RPa, SP, <<98, 98>>, <<98, 49>>, <<44>>,
          <<61, 61>>, <<49>>, <<110, 111, 116>>>>
-Atoms == IF Set = "logic" THEN Logic ELSE IF Set = "cmp" THEN Cmp ELSE Idx
+(* literal items of a brace list, character by character:  i in {<body>}  over  - 0 1 7 8 9 a x . space     *)
+IntItemChars == <<<<45>>, <<48>>, <<49>>, <<55>>, <<56>>, <<57>>, <<97>>, <<120>>, <<46>>, <<32>>>>
+Atoms == IF Set = "logic" THEN Logic ELSE IF Set = "cmp" THEN Cmp ELSE IF Set = "intitems" THEN IntItemChars ELSE Idx
+Prefix == IF Set = "intitems" THEN <<105, 32, 105, 110, 32, 123>> ELSE <<>>
+Suffix == IF Set = "intitems" THEN <<125>> ELSE <<>>
 Seqs == UNION {[1..n -> 1..Len(Atoms)] : n \in 1..MaxAtoms}
-TextOf(q) == FlatSeq(Strict([i \in 1..Len(q) |-> Atoms[q[i]]]))
+TextOf(q) == Prefix \o FlatSeq(Strict([i \in 1..Len(q) |-> Atoms[q[i]]])) \o Suffix
 Init == txt \in {TextOf(q) : q \in Seqs}
 Next == FALSE /\ UNCHANGED txt
 Spec == Init /\ [][Next]_txt
